@@ -42,11 +42,14 @@ def odml_tuple_import(t_count, new_value):
             return new_value
 
         if isinstance(n_val, (list, tuple)):
-            if len(n_val) == t_count:
-                n_val_str = "("
-                for tuple_val in n_val:
-                    n_val_str += str(tuple_val) + "; "
-                return_value += [n_val_str[:-2] + ")"]
+            if len(n_val) != t_count:
+                # Do not silently drop an entry; the value validation will refuse the input.
+                return new_value
+
+            n_val_str = "("
+            for tuple_val in n_val:
+                n_val_str += str(tuple_val) + "; "
+            return_value += [n_val_str[:-2] + ")"]
         else:
             cln = n_val.strip()
             br_check = cln.count("(") == cln.count(")")
@@ -59,6 +62,9 @@ def odml_tuple_import(t_count, new_value):
                     return_value = cln[1:-1].split(",")
             elif br_check and sep_check:
                 return_value += [cln]
+            else:
+                # Do not silently drop an entry; the value validation will refuse the input.
+                return new_value
 
     if not return_value:
         return_value = new_value
